@@ -37,7 +37,7 @@ def engineOn (d : D) (newest : Bytes) : String :=
 def rangeStep (n stride : Nat) : List Nat := (List.range (n / stride + 1)).map (· * stride) |>.filter (· ≤ n)
 
 def step (d : D) (ws : List String) : D × String :=
-  if d.files.isEmpty && (ws.headD "" == "truncall" || ws.headD "" == "flipall" || ws.headD "" == "engtrunc" || ws.headD "" == "engflip") then
+  if d.files.isEmpty && (ws.headD "" == "truncall" || ws.headD "" == "flipall" || ws.headD "" == "engtrunc" || ws.headD "" == "engcutrec" || ws.headD "" == "engflip") then
     (d, "noseal")
   else
   match ws with
@@ -61,6 +61,23 @@ def step (d : D) (ws : List String) : D × String :=
   | ["engtrunc", o] =>
     let b := d.files.getLast?.getD []
     let off := (o.toNat?.getD 0) % (b.length + 1)
+    (d, s!"eng {off} {engineOn d (b.take off)}")
+  | ["engcutrec", o] =>
+    let b := d.files.getLast?.getD []
+    -- ends of complete physical records; prefer those that end a FIRST/MIDDLE record (inside a fragmented entry)
+    let rec walk (fuel off : Nat) (acc : List (Nat × Nat)) : List (Nat × Nat) :=
+      match fuel with
+      | 0 => acc
+      | fuel + 1 =>
+        if off + 7 ≤ b.length then
+          let l := (b.getD (off + 4) 0).toNat + 256 * (b.getD (off + 5) 0).toNat
+          if off + 7 + l > b.length then acc
+          else walk fuel (off + 7 + l) (acc ++ [(off + 7 + l, (b.getD (off + 6) 0).toNat)])
+        else acc
+    let recs := walk (b.length + 1) 0 []
+    let inner := recs.filter (fun r => r.2 == 2 || r.2 == 3)
+    let ends := (if inner.isEmpty then recs else inner).map (·.1)
+    let off := if ends.isEmpty then 0 else ends.getD ((o.toNat?.getD 0) % ends.length) 0
     (d, s!"eng {off} {engineOn d (b.take off)}")
   | ["engflip", o, x] =>
     let b := d.files.getLast?.getD []
